@@ -75,7 +75,8 @@ def store_query(comp, expect, via, key, d):
         if p.kind != 'RET':
             continue
         ln, arr = L.snapshot(p.mem)[1]['s']
-        conds = [ln == len(expect)] + [z3.Select(arr[0], arr[1] + i) == x for i, x in enumerate(expect)] + [z3.Select(arr[0], arr[1] + len(expect)) == 0]
+        term = comp.spec['s'].str_null   # an unterminated string has no NUL after its bytes (the byte after an exact fit is not part of it)
+        conds = [ln == len(expect)] + [z3.Select(arr[0], arr[1] + i) == x for i, x in enumerate(expect)] + ([z3.Select(arr[0], arr[1] + len(expect)) == 0] if term else [])
         d['obligations'] += 1
         solver.push(); solver.add(*inv, *p.pc, z3.Not(z3.And(*conds)))
         res = solver.check(); d['queries'] += 1
@@ -83,7 +84,7 @@ def store_query(comp, expect, via, key, d):
             d['discharged'] += 1
         elif res == z3.sat:
             mdl = solver.model()
-            got = [mdl.eval(z3.Select(arr[0], arr[1] + i), model_completion=True).as_long() for i in range(len(expect) + 1)]
+            got = [mdl.eval(z3.Select(arr[0], arr[1] + i), model_completion=True).as_long() for i in range(len(expect) + (1 if term else 0))]
             problems.append(f'stored length {mdl.eval(ln, model_completion=True)} bytes {got} instead of {list(expect)}')
         else:
             d['inconclusive'].append(key)
@@ -112,6 +113,9 @@ def work(job):
             progs.append((f'casei/{k}', f'parser {{ "{t}"i; "z"; }}', 'accept', cs))
         progs.append((f'assign/{k}', f'out str[6] s; parser {{ "a"; s = "{t}"; "b"; }}', 'assign', bs))
         progs.append((f'default/{k}', f'out str[6] s = "{t}"; parser {{ "a"; }}', 'default', bs))
+    hexpairs = ' '.join('%02x' % x for x in bs)
+    progs.append(('default/binary', f'out str[6] s = "{hexpairs}"b; parser {{ "a"; }}', 'default', bs))
+    progs.append(('default/binary-exact-fit', f'out unterminated str[{len(bs)}] s = "{hexpairs}"b; parser {{ "a"; }}', 'default', bs))
     if len(bs) == 1:
         progs.append(('binary', f'parser {{ "{bs[0]:02x}"b; "z"; }}', 'accept', {bs[0]}))
         progs.append(('binary-upper', f'parser {{ "{bs[0]:02X}"b; "z"; }}', 'accept', {bs[0]}))
@@ -196,5 +200,5 @@ def run_into(run, tier):
                 run.harness_error(f"model does not reproduce: {f['obligation']} {f['what']} {rep}")
     run.functions += ['DirectMatch / CaseDirectMatch / BinaryRegexMatch conversion of literals (compiled DFA, symbolic input byte)',
                       'emitted SetToStr / default memcpy (CodegenCtx._generate_set_string, _escape_string) executed by llsym']
-    run.bounds['l23'] = {'single_bytes': len(vals), 'byte_pairs': len(pairs), 'contexts': 'match, casei, binary string (both cases), binary regex, string assignment, string default, char constant append',
+    run.bounds['l23'] = {'single_bytes': len(vals), 'byte_pairs': len(pairs), 'contexts': 'match, casei, binary string (both cases), binary regex, string assignment, string default (text and binary spelling, also exact fit), char constant append',
                          'input_byte': 'symbolic 0..255'}
